@@ -4,6 +4,7 @@ package main
 
 import (
 	"fmt"
+	"github.com/gardenbed/emerge/internal/ebnf/parser/spec"
 	"sort"
 	"strings"
 )
@@ -237,16 +238,77 @@ func renderPrec(ps []precObs) string {
 	return strings.Join(xs, " ; ")
 }
 
+// c12Orders: a rule handle whose rule has a bracket construct over a set S of alternatives, another construct over the
+// same S elsewhere, and the rule itself - in every order of the three declarations and for every pair of constructs.
+func c12OrderTexts() (names, texts []string) {
+	opens, closes := []string{"(", "[", "{", "{{"}, []string{")", "]", "}", "}}"}
+	sets := []string{`PLUS | MINUS`, `"+" "-"`, `"a" | "b" "c" |`}
+	for si, set := range sets {
+		for a := range opens {
+			for b := range opens {
+				if a == b {
+					continue
+				}
+				terms := []string{`PLUS MINUS`, `"+" "-"`, `"a" "b" "c"`}[si]
+				handle := fmt.Sprintf(`@left %s < expr = expr %s %s %s expr > ;`, terms, opens[a], set, closes[a])
+				other := fmt.Sprintf(`mark = "#" %s %s %s "#" ;`, opens[b], set, closes[b])
+				rule := fmt.Sprintf(`expr = expr %s %s %s expr | NUM ;`, opens[a], set, closes[a])
+				decls := []string{handle, other, rule}
+				for _, perm := range [][]int{{0, 1, 2}, {0, 2, 1}, {1, 0, 2}, {1, 2, 0}, {2, 0, 1}, {2, 1, 0}} {
+					text := "grammar g ; PLUS = \"+\" ; MINUS = \"-\" ; NUM = /[0-9]/ ; start = expr mark ; " + decls[perm[0]] + " " + decls[perm[1]] + " " + decls[perm[2]] + "\n"
+					if si == 1 {
+						text = strings.Replace(text, "PLUS = \"+\" ; MINUS = \"-\" ; ", "", 1)
+					}
+					names = append(names, fmt.Sprintf("orders/%d.%d.%d.%v", si, a, b, perm))
+					texts = append(texts, text)
+				}
+			}
+		}
+	}
+	return
+}
+
+func c12Orders(c *ctx) {
+	names, texts := c12OrderTexts()
+	for i := range texts {
+		if c.mineIdx(i) {
+			c12Check(c, names[i], texts[i])
+		}
+	}
+}
+
 func runC12(c *ctx) {
+	c12Orders(c)
 	r := c.rng("specs")
 	n := c.n(4000, 120000)
+	// a Spec handed out earlier must keep its levels while later specifications are parsed
+	var heldSpec *spec.Spec
+	var heldText, heldPrec string
+	heldAge := 0
 	for i := 0; i < n; i++ {
 		g := genDirectiveSpec(r)
 		semiMask := r.u64()
 		toks := specTokens(g, func(k int) bool { return semiMask>>(uint(k)%60)&1 == 1 })
 		text := layoutTokens(toks, r, layout{seps: sepVaried, finalNL: true, comments: r.chance(1, 5)})
-		if c.mine() {
-			c12Check(c, fmt.Sprintf("spec%d", i), text)
+		if !c.mine() {
+			continue
+		}
+		c12Check(c, fmt.Sprintf("spec%d", i), text)
+		if heldSpec != nil {
+			heldAge++
+			if heldAge >= 3 {
+				var o specObs
+				fillSpecObs(&o, heldSpec)
+				c.count("held_specifications_re_read", 1)
+				if now := renderPrec(o.Prec); now != heldPrec {
+					c.violate(violation{Case: "held-levels", Input: heldText, Observed: "after three other specifications were parsed, its recorded levels read: " + now, Expected: "unchanged: " + heldPrec})
+				}
+				heldSpec = nil
+			}
+		} else if c.res.Evaluations%5 == 0 {
+			if o := observeSpec(text); o.S != nil && len(o.Prec) > 0 {
+				heldSpec, heldText, heldPrec, heldAge = o.S, text, renderPrec(o.Prec), 0
+			}
 		}
 	}
 }
